@@ -1,6 +1,8 @@
 import Tickit.Model.RBCopy
 import Tickit.Proof.RBCopy
 import Tickit.Proof.RBCopyMove
+import Tickit.Proof.RBCopyBridge
+import Tickit.Proof.RBCopyFuel
 import Tickit.Gen.RBCopy
 /-
   C13 — copying, moving and blitting buffer regions preserve content cell for cell.
@@ -52,10 +54,10 @@ def Inside (rb : RB) (sr : Rect) : Prop :=
 /-- **Copy, cell for cell** — every overlap direction, rectangle edges anywhere relative to the runs, any clip,
     masks, pen and stack.  With no translation in force, after `copyrect(rb, dest, src)` every cell shows what the
     specification `selfCopyExpect` says; the result is well-formed and no mask depth changed. -/
-theorem copy_spec (rb : RB) (dr sr : Rect) (hwf : WF rb) (hxl : rb.xlLine = 0) (hxc : rb.xlCol = 0)
+theorem copy_spec (rb : RB) (dr sr : Rect) (hwf : RBCopy.WF rb) (hxl : rb.xlLine = 0) (hxc : rb.xlCol = 0)
     (hin : Inside rb sr) :
     (∀ L C, absContent (copy Variant.repaired rb dr sr) L C = selfCopyExpect rb dr sr L C) ∧
-    WF (copy Variant.repaired rb dr sr) ∧
+    RBCopy.WF (copy Variant.repaired rb dr sr) ∧
     (∀ l c, 0 ≤ l → l < rb.lines → 0 ≤ c → c < rb.cols →
       (((copy Variant.repaired rb dr sr).cells l).get c).maskdepth = ((rb.cells l).get c).maskdepth) :=
   let r := copy_result rb dr sr hwf hxl hxc hin.1 hin.2.1 hin.2.2.1 hin.2.2.2.1 hin.2.2.2.2
@@ -63,7 +65,7 @@ theorem copy_spec (rb : RB) (dr sr : Rect) (hwf : WF rb) (hxl : rb.xlLine = 0) (
 
 /-- The destination clause spelled out: a destination cell that clip and mask allow takes the content the source
     cell at the same offset had before the call (pen completed, lines merged). -/
-theorem copy_spec_destination (rb : RB) (dr sr : Rect) (hwf : WF rb) (hxl : rb.xlLine = 0) (hxc : rb.xlCol = 0)
+theorem copy_spec_destination (rb : RB) (dr sr : Rect) (hwf : RBCopy.WF rb) (hxl : rb.xlLine = 0) (hxc : rb.xlCol = 0)
     (hin : Inside rb sr) (hmoved : ¬ (dr.top = sr.top ∧ dr.left = sr.left)) (L C : Int)
     (hsrc : sr.Mem (L - (dr.top - sr.top)) (C - (dr.left - sr.left))) (hw : writable rb L C = true) :
     absContent (copy Variant.repaired rb dr sr) L C =
@@ -77,7 +79,7 @@ theorem copy_spec_destination (rb : RB) (dr sr : Rect) (hwf : WF rb) (hxl : rb.x
   cases absContent rb (L - (dr.top - sr.top)) (C - (dr.left - sr.left)) <;> rfl
 
 /-- All other cells are unchanged. -/
-theorem copy_spec_elsewhere (rb : RB) (dr sr : Rect) (hwf : WF rb) (hxl : rb.xlLine = 0) (hxc : rb.xlCol = 0)
+theorem copy_spec_elsewhere (rb : RB) (dr sr : Rect) (hwf : RBCopy.WF rb) (hxl : rb.xlLine = 0) (hxc : rb.xlCol = 0)
     (hin : Inside rb sr) (L C : Int)
     (h : ¬ (sr.Mem (L - (dr.top - sr.top)) (C - (dr.left - sr.left)) ∧ writable rb L C = true)) :
     absContent (copy Variant.repaired rb dr sr) L C = absContent rb L C := by
@@ -94,56 +96,55 @@ theorem copy_spec_elsewhere (rb : RB) (dr sr : Rect) (hwf : WF rb) (hxl : rb.xlL
 
 /-! ## Move -/
 
+/-- The rectangle-set computation of the vacated area (`tickit_rectset_add` of the source, `tickit_rectset_subtract`
+    of the destination) never runs out of the model's fuel … -/
+theorem move_vacated_area_returns (dr sr : Rect) (hsr : sr.Nonempty) : ∃ rects, clearArea dr sr = some rects :=
+  clearArea_returns dr sr hsr
+
+/-- … and returns exactly the vacated cells. -/
+theorem move_vacated_area_exact (dr sr : Rect) (hsr : sr.Nonempty) {rects : List Rect} (hca : clearArea dr sr = some rects) :
+    ∀ l c, Covered rects l c ↔ (sr.Mem l c ∧ ¬ Rect.Mem ⟨dr.top, dr.left, sr.lines, sr.cols⟩ l c) :=
+  (clearArea_region hca hsr).2
+
 /-- **Move**: as the copy, and the vacated source cells (those of the source rectangle that are not destination
-    cells) that clip and mask allow are skipped.  Stated for every run of the rectangle-set computation of the
-    vacated area that returns (`clearArea … = some _`; see `move_clearArea_returns` below). -/
-theorem move_spec (rb : RB) (dr sr : Rect) (hwf : WF rb) (hxl : rb.xlLine = 0) (hxc : rb.xlCol = 0)
-    (hin : Inside rb sr) {rects : List Rect} (hca : clearArea dr sr = some rects) :
+    cells) that clip and mask allow are skipped. -/
+theorem move_spec (rb : RB) (dr sr : Rect) (hwf : RBCopy.WF rb) (hxl : rb.xlLine = 0) (hxc : rb.xlCol = 0)
+    (hin : Inside rb sr) :
     (∀ L C, absContent (move Variant.repaired rb dr sr) L C = moveExpect rb dr sr L C) ∧
-    WF (move Variant.repaired rb dr sr) ∧
+    RBCopy.WF (move Variant.repaired rb dr sr) ∧
     (∀ l c, 0 ≤ l → l < rb.lines → 0 ≤ c → c < rb.cols →
-      (((move Variant.repaired rb dr sr).cells l).get c).maskdepth = ((rb.cells l).get c).maskdepth) :=
-  let r := move_result rb dr sr hwf hxl hxc hin.1 hin.2.1 hin.2.2.1 hin.2.2.2.1 hin.2.2.2.2 hca
-  ⟨r.content, r.wf, r.mask⟩
+      (((move Variant.repaired rb dr sr).cells l).get c).maskdepth = ((rb.cells l).get c).maskdepth) := by
+  obtain ⟨rects, hca⟩ := clearArea_returns dr sr hin.2.2.2.2
+  have r := move_result rb dr sr hwf hxl hxc hin.1 hin.2.1 hin.2.2.1 hin.2.2.2.1 hin.2.2.2.2 hca
+  exact ⟨r.content, r.wf, r.mask⟩
 
 /-- The vacated cells, spelled out. -/
-theorem move_spec_vacated (rb : RB) (dr sr : Rect) (hwf : WF rb) (hxl : rb.xlLine = 0) (hxc : rb.xlCol = 0)
-    (hin : Inside rb sr) {rects : List Rect} (hca : clearArea dr sr = some rects) (L C : Int)
+theorem move_spec_vacated (rb : RB) (dr sr : Rect) (hwf : RBCopy.WF rb) (hxl : rb.xlLine = 0) (hxc : rb.xlCol = 0)
+    (hin : Inside rb sr) (L C : Int)
     (hs : sr.Mem L C) (hd : ¬ Rect.Mem ⟨dr.top, dr.left, sr.lines, sr.cols⟩ L C) (hw : writable rb L C = true) :
     absContent (move Variant.repaired rb dr sr) L C = .skip := by
-  rw [(move_spec rb dr sr hwf hxl hxc hin hca).1 L C]
+  rw [(move_spec rb dr sr hwf hxl hxc hin).1 L C]
   unfold moveExpect
   have : Rect.memb ⟨dr.top, dr.left, sr.lines, sr.cols⟩ L C = false := by
     rw [Bool.eq_false_iff]; exact fun hh => hd ((Rect.memb_iff _ _ _).1 hh)
   rw [(Rect.memb_iff sr _ _).2 hs, this, hw]
   rfl
 
-/-- The rectangle-set computation of the vacated area returns exactly the vacated cells whenever it returns. -/
-theorem move_vacated_area_exact (dr sr : Rect) (hsr : sr.Nonempty) {rects : List Rect} (hca : clearArea dr sr = some rects) :
-    ∀ l c, Covered rects l c ↔ (sr.Mem l c ∧ ¬ Rect.Mem ⟨dr.top, dr.left, sr.lines, sr.cols⟩ l c) :=
-  (clearArea_region hca hsr).2
-
-/-- Open: the rectangle-set computation (`tickit_rectset_add` of at most four pieces of `tickit_rect_subtract`
-    into an empty set) never runs out of the model's fuel.  (Termination of `tickit_rectset_add` is the open part
-    of C05; the correspondence runs never produced `OUT-OF-FUEL`.) -/
-def move_clearArea_returns : Prop :=
-  ∀ (dr sr : Rect), sr.Nonempty → ∃ rects, clearArea dr sr = some rects
-
 /-! ## Blit -/
 
 /-- **Blit** overlays exactly the source's non-skipped cells (at the destination's translation, through the
     destination's clip and masks, pens completed from the destination's pen); the source is not touched (it is
     not even an argument of the result). -/
-theorem blit_spec (dst src : RB) (hwf : WF dst) (hsrc : WF src) (hl : 0 ≤ src.lines) (hc : 0 ≤ src.cols) :
+theorem blit_spec (dst src : RB) (hwf : RBCopy.WF dst) (hsrc : RBCopy.WF src) (hl : 0 ≤ src.lines) (hc : 0 ≤ src.cols) :
     (∀ L C, absContent (blit Variant.repaired false dst src) L C = blitExpect dst src L C) ∧
-    WF (blit Variant.repaired false dst src) ∧
+    RBCopy.WF (blit Variant.repaired false dst src) ∧
     (∀ l c, 0 ≤ l → l < dst.lines → 0 ≤ c → c < dst.cols →
       (((blit Variant.repaired false dst src).cells l).get c).maskdepth = ((dst.cells l).get c).maskdepth) :=
   let r := blit_result dst src hwf hsrc hl hc
   ⟨r.content, r.wf, r.mask⟩
 
 /-- A skipped source cell leaves the destination cell alone. -/
-theorem blit_spec_skip (dst src : RB) (hwf : WF dst) (hsrc : WF src) (hl : 0 ≤ src.lines) (hc : 0 ≤ src.cols) (L C : Int)
+theorem blit_spec_skip (dst src : RB) (hwf : RBCopy.WF dst) (hsrc : RBCopy.WF src) (hl : 0 ≤ src.lines) (hc : 0 ≤ src.cols) (L C : Int)
     (hs : absContent src (L - dst.xlLine) (C - dst.xlCol) = .skip) :
     absContent (blit Variant.repaired false dst src) L C = absContent dst L C := by
   rw [(blit_spec dst src hwf hsrc hl hc).1 L C]
@@ -155,6 +156,35 @@ theorem blit_spec_skip (dst src : RB) (hwf : WF dst) (hsrc : WF src) (hl : 0 ≤
 theorem blit_self (rb : RB) : blit Variant.repaired true rb rb = rb := by
   unfold blit copyrect
   simp
+
+/-! ## "For every buffer content reachable by drawing programs"
+
+  `RB.Op` / `RB.run` (Model/RB.lean) are the public state-changing operations of the render buffer and their
+  programs; `wf_reachable` (from the invariant theorem of C03, `RB.run_wf`) says every buffer a program reaches
+  from a fresh one is well-formed. -/
+
+/-- `copy_spec` for every buffer content reachable by a drawing program. -/
+theorem copy_spec_reachable (lines cols g1 g2 : Int) (hl : 0 ≤ lines) (hc : 0 < cols) (prog : List RB.Op) (dr sr : Rect)
+    (hxl : (RB.run (RB.new lines cols g1 g2) prog).xlLine = 0) (hxc : (RB.run (RB.new lines cols g1 g2) prog).xlCol = 0)
+    (hin : Inside (RB.run (RB.new lines cols g1 g2) prog) sr) :
+    ∀ L C, absContent (copy Variant.repaired (RB.run (RB.new lines cols g1 g2) prog) dr sr) L C =
+      selfCopyExpect (RB.run (RB.new lines cols g1 g2) prog) dr sr L C :=
+  (copy_spec _ dr sr (wf_reachable lines cols g1 g2 hl hc prog) hxl hxc hin).1
+
+theorem move_spec_reachable (lines cols g1 g2 : Int) (hl : 0 ≤ lines) (hc : 0 < cols) (prog : List RB.Op) (dr sr : Rect)
+    (hxl : (RB.run (RB.new lines cols g1 g2) prog).xlLine = 0) (hxc : (RB.run (RB.new lines cols g1 g2) prog).xlCol = 0)
+    (hin : Inside (RB.run (RB.new lines cols g1 g2) prog) sr) :
+    ∀ L C, absContent (move Variant.repaired (RB.run (RB.new lines cols g1 g2) prog) dr sr) L C =
+      moveExpect (RB.run (RB.new lines cols g1 g2) prog) dr sr L C :=
+  (move_spec _ dr sr (wf_reachable lines cols g1 g2 hl hc prog) hxl hxc hin).1
+
+/-- `blit_spec` for two buffers reachable by drawing programs (any translation, clip, masks on the destination). -/
+theorem blit_spec_reachable (l1 c1 g1 g2 l2 c2 g3 g4 : Int) (hl1 : 0 ≤ l1) (hc1 : 0 < c1) (hl2 : 0 ≤ l2) (hc2 : 0 < c2)
+    (p1 p2 : List RB.Op) :
+    ∀ L C, absContent (blit Variant.repaired false (RB.run (RB.new l1 c1 g1 g2) p1) (RB.run (RB.new l2 c2 g3 g4) p2)) L C =
+      blitExpect (RB.run (RB.new l1 c1 g1 g2) p1) (RB.run (RB.new l2 c2 g3 g4) p2) L C := by
+  have hw2 := Tickit.RB.run_wf p2 (Tickit.RB.new_refines l2 c2 g3 g4 hl2 hc2).1
+  exact (blit_spec _ _ (wf_reachable l1 c1 g1 g2 hl1 hc1 p1) (wf_of_rb hw2) hw2.size.1 (Int.le_of_lt hw2.size.2)).1
 
 /-! ## The defects of the code as found -/
 
@@ -178,7 +208,7 @@ theorem copy_keeps_aux_state_counterexample_as_found :
 /-- An erase run `[1,5)` on line 1 of a 2 × 7 buffer. -/
 def cexRun : RB := eraseAt (RB.new 2 7 0 0) 1 1 4
 
-theorem cexRun_wf : WF cexRun := (eraseRun_spec (wf_new 2 7 0 0 (by decide) (by decide)) 1 1 4).wf
+theorem cexRun_wf : RBCopy.WF cexRun := (eraseRun_spec (wf_new 2 7 0 0 (by decide) (by decide)) 1 1 4).wf
 
 /-- As found, when the rectangle's left edge falls inside a run the piece copied is as long as the whole run and the
     scan advances by the whole run: copying columns 3..5 two to the left leaves an erase cell where the skipped
@@ -189,7 +219,7 @@ theorem copy_misses_cell_as_found :
   decide +kernel
 
 theorem copy_spec_counterexample_as_found :
-    ¬ (∀ (rb : RB) (dr sr : Rect), WF rb → rb.xlLine = 0 → rb.xlCol = 0 → Inside rb sr →
+    ¬ (∀ (rb : RB) (dr sr : Rect), RBCopy.WF rb → rb.xlLine = 0 → rb.xlCol = 0 → Inside rb sr →
         ∀ L C, absContent (copy Variant.asFound rb dr sr) L C = selfCopyExpect rb dr sr L C) := by
   intro h
   have := h cexRun ⟨0, 1, 2, 3⟩ ⟨0, 3, 2, 3⟩ cexRun_wf rfl rfl (by unfold Inside Rect.Nonempty; decide) 1 3
@@ -226,7 +256,7 @@ theorem gen_tree_is_repaired :
 
 /-- The hypotheses of `copy_spec` are inhabited by a buffer with a run that both rectangle edges cut, and the
     repaired copy puts the skipped cell where the as-found code left an erase cell. -/
-example : WF cexRun ∧ cexRun.xlLine = 0 ∧ cexRun.xlCol = 0 ∧ Inside cexRun ⟨0, 3, 2, 3⟩ ∧
+example : RBCopy.WF cexRun ∧ cexRun.xlLine = 0 ∧ cexRun.xlCol = 0 ∧ Inside cexRun ⟨0, 3, 2, 3⟩ ∧
     absContent (copy Variant.repaired cexRun ⟨0, 1, 2, 3⟩ ⟨0, 3, 2, 3⟩) 1 3 = .skip ∧
     absContent (copy Variant.repaired cexRun ⟨0, 1, 2, 3⟩ ⟨0, 3, 2, 3⟩) 1 2 = .erase {} :=
   ⟨cexRun_wf, rfl, rfl, by unfold Inside Rect.Nonempty; decide, by decide +kernel, by decide +kernel⟩
@@ -234,10 +264,13 @@ example : WF cexRun ∧ cexRun.xlLine = 0 ∧ cexRun.xlCol = 0 ∧ Inside cexRun
 /-- The repaired copy on the stack example keeps the frame. -/
 example : (copy Variant.repaired cexStack ⟨0, 0, 2, 4⟩ ⟨0, 1, 2, 4⟩).depth = 1 := by decide +kernel
 
-/-- `move_spec`'s hypothesis about the vacated-area computation is inhabited (overlapping move to the left). -/
+/-- The vacated area of an overlapping move to the left, computed. -/
 example : clearArea ⟨0, 1, 2, 3⟩ ⟨0, 3, 2, 3⟩ = some [⟨0, 4, 2, 2⟩] := by decide +kernel
 
+/-- The "reachable" theorems are about non-trivial programs: `cexRun` is one. -/
+example : RB.run (RB.new 2 7 0 0) [.eraseAt 1 1 4] = cexRun := rfl
+
 /-- `blit_spec`'s hypotheses are inhabited. -/
-example : WF (RB.new 2 4 0 0) ∧ WF cexRun := ⟨wf_new 2 4 0 0 (by decide) (by decide), cexRun_wf⟩
+example : RBCopy.WF (RB.new 2 4 0 0) ∧ RBCopy.WF cexRun := ⟨wf_new 2 4 0 0 (by decide) (by decide), cexRun_wf⟩
 
 end Tickit.Props.C13
